@@ -160,13 +160,13 @@ def scenario_text(rng, module, cfg, hostile=False):
         if mode == "literal_corrupt":
             cands = []
             for name, f, container in env.fields():
-                if not f.is_virtual and isinstance(f.type, D.Scalar) and f.type.kind in ("UInt", "Int") and env.has(name) is True:
+                if not f.is_virtual and isinstance(f.type, D.Scalar) and f.type.kind in ("UInt", "Int", "Bcd", "Enum") and env.has(name) is True:
                     cands.append((name, f))
             if cands:
                 name, f = rng.choice(cands)
                 lo, hi = M.scalar_range(f.type, module)
-                bad = rng.choice([str(hi + 1), str(lo - 1), str(1 << 64), str(-(1 << 63) - 1), "0x", "12_", "--1", "0b", "1__2x",
-                                  hex(hi + 1), "99999999999999999999999"])
+                bad = rng.choice([str(hi + 1), str(lo - 1), str(1 << 64), str(-(1 << 63) - 1), "0x", "--1", "0b", "12x", "0x1g", "-",
+                                  hex(hi + 1), "99999999999999999999999", bin(hi + 1)])
                 corrupt = {"path": name, "depth": 0, "text": bad}
                 expect = "0"
                 desc = {"field": name, "text": bad, "kind": "out_of_range" if bad.lstrip("-").isdigit() or bad.startswith("0x") and len(bad) > 2 else "malformed"}
@@ -184,7 +184,10 @@ def scenario_text(rng, module, cfg, hostile=False):
     if mode == "channel_fault" or not is_ok:
         ops.append({"op": "channel", "slot": "s", "kind": rng.choice(["trunc", "trunc", "drop", "dup", "nine"]), "arg": rng.randint(0, 120)})
         faulted = True
-    expect = "1" if (is_ok and not faulted) else None
+    # comments run to the end of the line, so single-line output with comments is not among the
+    # option sets documented as re-readable
+    rereadable = not (cm and not ml)
+    expect = "1" if (is_ok and not faulted and rereadable) else None
     ops.append(dict(ob, op="restore_slot", arena="b", off=0, len=len(msg), slot="s", expect=expect, ml=ml, faulted=faulted,
                     has_array=_has_array(module, sd)))
     if expect == "1":
@@ -223,6 +226,11 @@ def scenario_for(prop, rng, module, cfg):
 def compare_other(exp, got, fail, line, counters, prop):
     """Returns True when the rest of the scenario should not be compared."""
     kind = exp["kind"]
+    marker = {"copy": "copy", "equals": "equals", "restore": "restore"}.get(kind)
+    if marker is not None and marker not in got:
+        # the driver was built without this method (it does not compile: reported separately)
+        counters["op_not_available_in_driver"] = counters.get("op_not_available_in_driver", 0) + 1
+        return True
     counters["ops_checked"] = counters.get("ops_checked", 0) + 1
     if kind == "copy":
         facts = exp["facts"]
